@@ -135,34 +135,38 @@ def Transport.zero : Transport :=
     serverPorts := ⟨0, 0, 0, 0⟩, ports := ⟨0, 0, 0, 0⟩,
     multicastIP := [], ttl := 0, source := [] }
 
-/-- one iteration of the parameter loop of `ParseTransport`; the Bool is "err was set" -/
-def paramStep (rt : Track) (acc : Transport × Bool) (token : Str) : Transport × Bool :=
-  let (t, err) := acc
+/-- one iteration of the parameter loop of `ParseTransport`; `err` is "err was set" -/
+def paramStep2 (rt : Track) (t : Transport) (err : Bool) (token : Str) : Transport × Bool :=
   if token == "unicast".toList && t.type == .multicast then ({ t with type := .udp }, err)
   else if token == "multicast".toList && t.type == .tcp then (t, true)
   else if token == "append".toList then ({ t with append := true }, err)
   else
-    let (k, v) := equalPair token
+    let k := (equalPair token).1
+    let v := (equalPair token).2
     if k == "mode".toList then
       ({ t with mode := if v == "record".toList then .record else .play }, err)
     else if k == "interleaved".toList then
-      let (b, e) := parseRange v
+      let b := (parseRange v).1
+      let e := (parseRange v).2
       let ch := if b ≥ 0 then t.channels.setFst rt b else t.channels
       let ch := if e ≥ 0 then ch.setSnd rt e else ch
       ({ t with channels := ch }, err || decide (b < 0))
     else if k == "client_port".toList then
-      let (b, e) := parseRange v
-      ({ t with clientPorts := (t.clientPorts.setFst rt b).setSnd rt e }, err || decide (b < 0))
+      ({ t with clientPorts := (t.clientPorts.setFst rt (parseRange v).1).setSnd rt (parseRange v).2 },
+        err || decide ((parseRange v).1 < 0))
     else if k == "server_port".toList then
-      let (b, e) := parseRange v
-      ({ t with serverPorts := (t.serverPorts.setFst rt b).setSnd rt e }, err || decide (b < 0))
+      ({ t with serverPorts := (t.serverPorts.setFst rt (parseRange v).1).setSnd rt (parseRange v).2 },
+        err || decide ((parseRange v).1 < 0))
     else if k == "port".toList then
-      let (b, e) := parseRange v
-      ({ t with ports := (t.ports.setFst rt b).setSnd rt e }, err || decide (b < 0))
+      ({ t with ports := (t.ports.setFst rt (parseRange v).1).setSnd rt (parseRange v).2 },
+        err || decide ((parseRange v).1 < 0))
     else if k == "destination".toList then ({ t with multicastIP := v }, err)
     else if k == "source".toList then ({ t with source := v }, err)
     else if k == "ttl".toList then ({ t with ttl := (atoi v).1 }, err)
     else (t, err)
+
+def paramStep (rt : Track) (acc : Transport × Bool) (token : Str) : Transport × Bool :=
+  paramStep2 rt acc.1 acc.2 token
 
 /-- `(*RTPTransport).ParseTransport(rtpType, ts)`: the mutated receiver and `err != nil`.
     The receiver is mutated even when an error is returned. -/
